@@ -336,7 +336,19 @@ func ruleGRDorder(w *World, r *Report) {
 			isSort := func(in ssa.Instruction) bool { return in == sorts[len(sorts)-1] }
 			found, wit := (pathQuery{fn: fn, target: trunc, avoid: isSort}).find(entryPos(fn))
 			r.Cond(!found, "GRD-order", name+":sort<truncate", w.Pos(fi.Decl.Pos()), "results are sorted before being cut to k", "results are cut to k before they are sorted: the k best are not the ones returned", w.witness(wit)...)
-			// every non-empty fused return passes the sort (text-only branch returns BM25 order from the core)
+			// the search goroutines run before the sort: they must not cut their candidate lists to k
+			for _, cf := range closuresOf(fn) {
+				for _, in := range findInstrs(cf, func(in ssa.Instruction) bool {
+					sl, ok := in.(*ssa.Slice)
+					if !ok || sl.High == nil {
+						return false
+					}
+					return mentionsFreeVar(sl.High, "k", 0)
+				}) {
+					r.Bad("GRD-order", name+":no-candidate-cut-before-fusion", w.Pos(in.Pos()), "a candidate list is cut to k inside a search goroutine, before fusion: documents below rank k on one side lose that side's share of the fused score, so the fused top-k no longer follows alpha*vector + (1-alpha)*text")
+				}
+			}
+			r.Ok("GRD-order", name+":candidate-lists-reach-fusion-uncut", w.Pos(fi.Decl.Pos()), "checked")
 		}
 	}
 }
@@ -541,4 +553,27 @@ func zeroIterEdges(fn *ssa.Function, capCmp func(ssa.Instruction) bool) map[edge
 		}
 	}
 	return out
+}
+
+func mentionsFreeVar(v ssa.Value, name string, depth int) bool {
+	if depth > 4 || v == nil {
+		return false
+	}
+	switch x := v.(type) {
+	case *ssa.FreeVar:
+		return x.Name() == name
+	case *ssa.UnOp:
+		return mentionsFreeVar(x.X, name, depth+1)
+	case *ssa.Convert:
+		return mentionsFreeVar(x.X, name, depth+1)
+	case *ssa.Parameter:
+		return x.Name() == name
+	case *ssa.Phi:
+		for _, e := range x.Edges {
+			if mentionsFreeVar(e, name, depth+1) {
+				return true
+			}
+		}
+	}
+	return false
 }
